@@ -228,6 +228,8 @@ func runC06(c *Ctx) {
 		}
 	}
 	c.Floor("C06.P1-abandon-only-when-cancelled", 1)
+	sourcesKeepErrorIdentity(c, "C06.P1-sources-keep-error-identity")
+	c.Floor("C06.P1-sources-keep-error-identity", 2)
 
 	// ---- P2 newest wins ---------------------------------------------------------------
 	pcacheNewestWins(c, "C06.P2-newest-wins")
@@ -356,6 +358,12 @@ func runC06(c *Ctx) {
 				okV = v.Op == "param"
 				for _, l := range c.Leaves(c.E(st.Val), st) {
 					if strip(l).Op != "param" {
+						okV = false
+					}
+				}
+				// …whatever it is: a value the option silently declines (zero, say) leaves the default in force
+				for _, fct := range c.FactsAt(st.Block()) {
+					if fct.If != nil && fct.If.Parent() == g {
 						okV = false
 					}
 				}
@@ -577,6 +585,19 @@ func pcacheMergePrecedence(c *Ctx, rule string) {
 				}
 			}
 			key := w.Name + " › rebuild main map"
+			// …for the provider being carried over: both lookups and the entry written use the same key (the loop's
+			// own, not that of the provider the miss-fetch is about)
+			if upd != nil && old != nil {
+				sameKey := true
+				for _, lk := range []*X{upd, old} {
+					if l, isLk := lk.V.(*ssa.Lookup); isLk {
+						if !Same(c.E(l.Index), c.E(mu.Key)) {
+							sameKey = false
+						}
+					}
+				}
+				c.Check(sameKey, rule, key+" › same provider looked up and stored", mu.Pos(), "the pending-updates lookup, the old-main-map lookup and the entry written use one key", "the record stored under a provider's key is looked up under another key: providers held only in the main map are dropped (or replaced by another provider's record) when the main map is rebuilt")
+			}
 			if upd == nil || old == nil {
 
 				c.Bad(rule, key, mu.Pos(), "rebuilt main map is not filled from (pending updates, else old main map): "+v.String())
